@@ -188,10 +188,30 @@ def write_if_changed(path, text):
     return True
 
 
+def ensure_gen_files():
+    """every generated file named in _CoqProject has to exist before make can build anything; a missing one is
+    produced by its translator (or a stub that defines nothing when the translator rejects the source)"""
+    with open(os.path.join(COQ, "_CoqProject")) as f:
+        names = [l.strip()[4:-2] for l in f if l.strip().startswith("gen/") and l.strip().endswith(".v")]
+    missing = [n for n in names if not os.path.exists(os.path.join(GEN, n + ".v"))]
+    if not missing:
+        return
+    from harness import translators
+    translators.import_all()
+    for n in missing:
+        try:
+            translators.generate(n)
+        except Exception:
+            write_if_changed(os.path.join(GEN, n + ".v"),
+                             "(* GENERATION FAILED: the translator rejected the source; nothing is defined here *)\n")
+
+
 def coq_make(targets, timeout=900, jobs=8):
     """(Re)build the given .vo targets (relative to coq/).  Returns (ok, log)."""
     with CoqLock():
-        if not os.path.exists(os.path.join(COQ, "Makefile.coq")):
+        ensure_gen_files()
+        mk, proj = os.path.join(COQ, "Makefile.coq"), os.path.join(COQ, "_CoqProject")
+        if not os.path.exists(mk) or os.path.getmtime(mk) < os.path.getmtime(proj):
             subprocess.run(
                 ["coq_makefile", "-f", "_CoqProject", "-o", "Makefile.coq"],
                 cwd=COQ, check=True, capture_output=True,
@@ -399,11 +419,11 @@ class Ctx:
         except Exception as e:  # translator rejected the source
             self.oblige("gen/" + name, "gen", False, "translator rejected source: %r" % (e,))
             # keep the last good generated file out of the build so that stale
-            # theorems cannot pass
-            try:
-                os.remove(os.path.join(GEN, name + ".v"))
-            except FileNotFoundError:
-                pass
+            # theorems cannot pass: replace it by a stub that defines nothing (the
+            # file has to exist, or make would refuse to build anything at all and
+            # every other property would be reported broken as well)
+            write_if_changed(os.path.join(GEN, name + ".v"),
+                             "(* GENERATION FAILED: the translator rejected the source; nothing is defined here *)\n")
             return False
 
     def prove(self, props_file=None, expect_theorems=None):
